@@ -1,0 +1,44 @@
+//go:build verif
+
+package verifhook
+
+import (
+	"context"
+	"net"
+	"sync/atomic"
+)
+
+var (
+	noBackground atomic.Bool
+	dialer       atomic.Pointer[func(ctx context.Context, proto, addr string) (net.Conn, error)]
+	failer       atomic.Pointer[func(point string) error]
+)
+
+func SetBackground(on bool) { noBackground.Store(!on) }
+func Background() bool      { return !noBackground.Load() }
+
+func SetDialer(f func(ctx context.Context, proto, addr string) (net.Conn, error)) {
+	if f == nil {
+		dialer.Store(nil)
+		return
+	}
+	dialer.Store(&f)
+}
+func DialActive() bool { return dialer.Load() != nil }
+func Dial(ctx context.Context, proto, addr string) (net.Conn, error) {
+	return (*dialer.Load())(ctx, proto, addr)
+}
+
+func SetFailer(f func(point string) error) {
+	if f == nil {
+		failer.Store(nil)
+		return
+	}
+	failer.Store(&f)
+}
+func Fail(point string) error {
+	if f := failer.Load(); f != nil {
+		return (*f)(point)
+	}
+	return nil
+}
